@@ -12,7 +12,7 @@ KEEP = ("raises:", "raises-only", "coverage:", "frame:", "result-range", "progre
 
 def main(argv=None):
     ck = Check("C06", argv, level="proof")
-    res = world.run_functions(ck, MODS, FUNCS, timeout=20 if ck.tier == "quick" else 60)
+    res = world.run_functions(ck, MODS, FUNCS, timeout=20 if ck.tier == "quick" else 60, hooks_mod="contracts.parser")
     world.report(ck, res, select=lambda n: any(k in n for k in KEEP))
     facts = []
     for r in res:
